@@ -88,8 +88,12 @@ Definition threshold (b : N) : N :=
   floor_me q e' mod M32.
 
 (* ---- records ----------------------------------------------------------- *)
-(* None = field absent or not a string *)
-Record srec := { s_status : option bytes; s_stream : option bytes; s_request : option bytes }.
+(* None = field absent or not a string.  s_extra: every OTHER field the record
+   carries (cancelled, method, http_status, claims ...), as (key, JSON text of the
+   value) pairs; keys other than status / stream_id / request_id / sample_rate.
+   The sampler does not look at them: no function below reads s_extra. *)
+Record srec := { s_status : option bytes; s_stream : option bytes; s_request : option bytes;
+                 s_extra : list (bytes * bytes) }.
 
 Definition k_error : bytes := Eval compute in str "error".
 Definition is_error (r : srec) : bool :=
